@@ -7,10 +7,14 @@ Tie, two ways: (1) the records the real watcher receives for every call are comp
 `emission` (type, key, every field); (2) closed loop on the implementation alone: the collected
 records go through Op.Encode / DecodeOp into ApplyPatch on a second instance and the logical dumps
 of primary and replica are compared.  Key / field / member names are kept valid UTF-8 here: the wire
-encoding (protobuf `string` fields) cannot carry other names - known finding."""
+encoding (protobuf `string` fields) cannot carry other names - known finding.
+(3) the wire encoding itself: Model/ProtoWire.lean (proto3 wire format + Op.Encode / DecodeOp, with the
+round-trip / injectivity / totality theorems of Props/C20.lean) against the real Op.Encode / DecodeOp on
+every operation type x edge values and on malformed inputs (checks/patchwire.py); the message table is
+regenerated from patch/op.pb.go + patch/patch.go on every run (source fact `patch`)."""
 import os
 import vlib, gen_api
-from checks import apicheck
+from checks import apicheck, patchwire
 
 UTF8 = {"00ff2a": "c3a92a", "00ff6d": "c3a96d"}
 MIN64 = "-9223372036854775808"
@@ -34,7 +38,7 @@ def sanitize(op):
     return " ".join(t)
 
 
-def feed_stream(ctx, fams, n, every):
+def feed_stream(ctx, fams, n, every, feedop="feed"):
     ops = gen_api.stream(ctx.rng, fams, n, events={"sleep": 0.04}, dump_every=0, realtime=False)
     out = ["open b mem", "open a mem", "watch 2a 2a2f2a"]
     k = 0
@@ -47,7 +51,7 @@ def feed_stream(ctx, fams, n, every):
         out.append(sanitize(op))
         k += 1
         if every == 1:
-            out.append("feed")
+            out.append(feedop)
         elif k % every == 0:
             out += ["replicate b", "ldump", "inst b", "ldump", "inst a"]
     if every > 1:
@@ -61,14 +65,18 @@ FAMS = [["str"], ["key", "str", "exp"], ["list"], ["hash"], ["set"], ["zset"], [
 def run(ctx, proofs_ok):
     q = ctx.tier == "quick"
     hft = vlib.build_harness(ctx, faketime=True)
-    vlib.replay_known_findings(ctx, vlib.build_harness(ctx), hft)
+    hplain = vlib.build_harness(ctx)
+    vlib.replay_known_findings(ctx, hplain, hft)
+    # the wire encoding itself (Model/ProtoWire.lean): Op.Encode / DecodeOp byte for byte
+    if patchwire.run(ctx, hplain):
+        return
     for ops in split_corpus(vlib.corpus_ops(ctx.pid, "ft.ops")):
         vlib.correspond_stream(ctx, hft, ops, "corpus", "corpus: witnesses of repaired defects", shrink=False)
     reps = 2 if q else 12
     n = 250 if q else 800
     for fi, fams in enumerate(FAMS):
         for i in range(reps):
-            if vlib.correspond_stream(ctx, hft, feed_stream(ctx, fams, n, 1), f"e{fi}-{i}", "emitted records compared with the model after every call: " + "+".join(fams)):
+            if vlib.correspond_stream(ctx, hft, feed_stream(ctx, fams, n, 1, "feedw" if i % 2 else "feed"), f"e{fi}-{i}", "emitted records compared with the model after every call (odd rounds: with the digest of each record's Op.Encode bytes): " + "+".join(fams)):
                 return
             if vlib.correspond_stream(ctx, hft, feed_stream(ctx, fams, n, 17), f"r{fi}-{i}", "closed loop primary -> Encode/DecodeOp -> ApplyPatch on a replica: " + "+".join(fams)):
                 return
@@ -85,7 +93,7 @@ def run(ctx, proofs_ok):
         geo += [c(*cmd), "replicate b", "ldump", "inst b", "ldump", "inst a"]
     # (the model's side of GEOADD's records is tied at the API level: `api GeoAdd` in the zset family above - records
     # against `Feed.emission`, and the closed loop; here the command goes over the network protocol)
-    g, _ = vlib.run_pair(ctx, geo, vlib.build_harness(ctx), "geo")
+    g, _ = vlib.run_pair(ctx, geo, hplain, "geo")
     ctx.cov["evaluations"] += len(geo)
     for i, op in enumerate(geo):
         if op.startswith("replicate ") and i + 3 < len(g):
